@@ -1231,7 +1231,7 @@ pub mod serde_rt {
             if items % per != 0 {
                 return None;
             }
-            Some((ann, items / per, Enc::Tok(toks, fmt - 1)))
+            Some((ann, items / per, Enc::Tok(toks, (fmt - 1) % 4)))
         }
     }
     fn decode<T: for<'de> Deserialize<'de>>(e: &Enc) -> Option<T> {
@@ -1250,6 +1250,19 @@ pub mod serde_rt {
                     Ok(m) if de.pos == t.len() => Some(m),
                     _ => None,
                 }
+            }
+        }
+    }
+
+    /// `Deserialize::deserialize_in_place` into an existing container (serde's provided method is
+    /// `*place = deserialize(d)?` unless the crate overrides it); token format only
+    pub fn decode_in_place<T: for<'de> Deserialize<'de>>(e: &Enc, place: &mut T) -> bool {
+        match e {
+            Enc::Bin(_) => false,
+            Enc::Tok(t, hint) => {
+                let mut de = TokDe { toks: t, pos: 0, hint: *hint };
+                let r = crate::ctl::mm(|| T::deserialize_in_place(&mut de, place));
+                r.is_ok() && de.pos == t.len()
             }
         }
     }
